@@ -565,7 +565,7 @@ fn resize(s: &mut Snap, lines: &N, cols: &N, notes: &mut Notes) {
     }
     notes.screen_wide = true;
     notes.cursor_free = true;
-    notes.tabs_free = true;
+    // tab stops change only through HTS / TBC / RIS, so a resize leaves the set alone
     let b = s.blank();
     if nl < s.lines {
         s.cells.drain(0..(s.lines - nl) as usize); // surplus rows leave at the top
